@@ -24,12 +24,12 @@ ID = "C16"
 LEVEL = "fault_enumeration"
 RULE = ("systematic product {child behaviour} x {exit path} x {moment} x {entry point} with fixed parameters, plus seeded scenarios with "
         "random latencies/instants/second cancellation; non-trivial = the child misbehaved or the exit was not the plain normal path")
-PROBES = ["child_state_checked_at_instant_of_exit", "client_object_reused", "exit_under_cancel_scope", "exit_under_task_cancel", "exit_under_fail_after", "exit_by_exception", "sigterm_ignored_then_killed",
+PROBES = ["exit_with_more_unread_output_than_reader_buffers", "child_state_checked_at_instant_of_exit", "client_object_reused", "exit_under_cancel_scope", "exit_under_task_cancel", "exit_under_fail_after", "exit_by_exception", "sigterm_ignored_then_killed",
           "child_already_dead_at_exit", "cancel_landed_inside_aexit", "request_pending_when_child_died", "spawn_failed", "writer_blocked_at_exit",
           "flood_at_exit"]
 TIERS = {"quick": {"runs": 20000, "wall": 45.0}, "thorough": {"runs": 2000000, "wall": 560.0}}
 ASSUMPTIONS = [
-    "real descriptors and /proc state are modelled: a pipe handle is released iff the child is dead or the handle was closed (asyncio's subprocess transport behaviour); kernel-level leaks are out of reach",
+    "real descriptors and /proc state are modelled after asyncio's subprocess transport: the read end of the child's stdout is released when the transport saw EOF (it pauses above 2 x 64 KiB of unread output and then never does) or when the process object is closed (anyio Process.aclose()); the write end goes with the child; kernel-level leaks are out of reach (the one leak this model found was confirmed on a real child)",
     "exit time bound = 2.0 s (two grace periods) + the scenario's modelled SIGTERM/SIGKILL delivery latencies; zero scheduling slack in virtual time",
     "SIGKILL always kills",
 ]
@@ -59,6 +59,7 @@ def _child_cfg(kind, rng=None):
         c["capacity"] = r([64, 1, 4096])
     if kind == "floods":
         c["flood_every"] = r([1, 2, 10])
+        c["flood_line_bytes"] = r([8192, 90, 90, 30000])
     if kind == "floods_then_exits":
         # writes a burst larger than the client's 100-slot incoming queue, then exits by itself
         c["burst"] = r([400, 101, 150, 99])
@@ -201,9 +202,12 @@ def execute(scn: dict) -> dict:
             if ch.get("close_stdin_at") is not None:
                 sim.at(sim.now() + ticks(ch["close_stdin_at"]), child.close_stdin_child_side, tie=2)
             if ch.get("flood_every"):
+                pad = b"f" * max(0, ch.get("flood_line_bytes", 90) - 85)
+
                 def flood():
-                    if child.alive and not child.out_eof and len(child.out_pieces) < 500:
-                        child.write_stdout([b'{"jsonrpc":"2.0","method":"notifications/message","params":{"data":"flood"}}\n'])
+                    # a real child blocks in write(2) once the pipe (64 KiB) and the parent's reader buffer (2 x 64 KiB) are full
+                    if child.alive and not child.out_eof and child.unread_output() < 3 * 65536:
+                        child.write_stdout([b'{"jsonrpc":"2.0","method":"notifications/message","params":{"data":"flood' + pad + b'"}}\n'])
                     if child.alive:
                         sim.at(sim.now() + ticks(ch["flood_every"]), flood, tie=2)
                 sim.at(sim.now(), flood, tie=2)
@@ -438,6 +442,17 @@ def execute(scn: dict) -> dict:
                                                               f"{ch['term_latency']}/{ch['kill_latency']} ticks to die after TERM/KILL)")
                 elif not reaped_l:
                     V("child-unreaped", "at-exit:" + tag, f"the child had exited but was not reaped at the instant the context was left (signals={sigs}): nobody waited for it")
+        # no additional open descriptor: the read end of the child's stdout must not outlive the context
+        if not child.alive and child.stdout_fd_open and st.get("second_fired"):
+            # a second native task.cancel() while the first one is still being handled interrupts the clean-up's own awaits: nothing
+            # the library awaits can be relied on then (same exemption as for the child's state above)
+            probe("cleanup_interrupted_by_second_native_cancel")
+        elif not child.alive and child.stdout_fd_open:
+            V("fd-left-open", tag, f"the read end of the child's stdout is still open after the context was left: {child.unread_output()} bytes of the "
+                                   f"child's output were never read (more than the reader buffers), so the pipe never reached EOF and nothing closed it "
+                                   f"(path={path}, child={kind})")
+        if child.unread_output() > child.READER_HIGH_WATER:
+            probe("exit_with_more_unread_output_than_reader_buffers")
         if any(s[2] == "SIGKILL" for s in child.signals) and ch.get("ignore_sigterm"):
             probe("sigterm_ignored_then_killed")
         if child.t_exit is not None and t_begin is not None and child.t_exit <= t_begin:
